@@ -6,7 +6,7 @@ CONSTANTS
  KMAX = 3
  PIXTOKS = {0, 1, 2, 3, 4}
  BLENDRULE = "pinned"
- DIRECTED = FALSE
+ DIRECTED = ""
  GEN = FALSE
 INVARIANTS PlaybackExact RectOK
 CHECK_DEADLOCK FALSE
